@@ -24,14 +24,15 @@ def showBatch (b : Bytes) : String :=
 
 def showRes : Res → String
   | .ok => "ok" | .closed => "closed" | .tooLarge => "toolarge"
-  | .empty => "empty" | .eof => "eof" | .batch b => showBatch b
+  | .empty => "empty" | .eof => "eof" | .notArmed => "notarmed" | .batch b => showBatch b
 
 def showOut (s : State) (o : Out) : String :=
   showRes o.res ++ " ps=" ++ toString s.pendingSize ++ " np=" ++ toString s.pending.length ++
     " q=" ++ toString s.queue.length ++ " fl=" ++
     (match o.flush with
      | none => "none"
-     | some f => if f.delivered then "enq" else "drop")
+     | some f => if f.delivered then "enq" else "drop") ++
+    " arm=" ++ (if s.timerArmed then "1" else "0")
 
 abbrev St := Option (Cfg × State)
 
